@@ -85,6 +85,10 @@ def run(ctx):
                 te = try_edges(b, cbb)
                 oks = ok_return_blocks(b)
                 ok = te is not None and bool(oks) and all(b.dominates(te[0], o) for o in oks) and te[1] is not None and all_paths_err(b, te[1])
+                if not ok and not oks:
+                    # forwarded result: the returned value is the call's Result (possibly mapped), so its error is the error
+                    ro = return_origin(b)
+                    ok = any(c is cs[0][1] for c in ro.calls) and not [a for a in ro.atoms if a[0] == 'ret'] and all(b.dominates(cbb, r) for r in rets)
                 det += '; every Ok return is dominated by its success edge and its error is propagated: %s' % ok
             else:
                 ok = all(b.dominates(cbb, r) for r in rets)
@@ -118,6 +122,22 @@ def run(ctx):
                 o = origin(rv, s['rv']['ops'][s['rv']['fields'].index('schema_node')])
                 okn = 'schema' in o.fields and any((c.get('callee') or '').endswith('Iterator::next') for c in o.calls)
                 ctx.ob('RECORD', 'next_value/node-is-that-fields-schema', okn, short_loc(s.get('span')), 'node derives from %s' % o.describe())
+    # Ok(None) (no more keys) only when first() found nothing left
+    nones = []
+    for bb in sorted(rk.live_blocks()):
+        for s_ in rk.stmts(bb):
+            if 'assign' in s_ and s_['rv']['k'] == 'agg' and s_['rv'].get('adt') == 'core::option::Option' and s_['rv']['variant'] == 'None' and not rk.is_cleanup(bb):
+                nones.append(bb)
+    okn = bool(nones)
+    for nb_ in nones:
+        good = False
+        for names, adt, oo, d_, oth in option_guards(rk, nb_):
+            if 'None' in names and 'record_fields' in oo.fields and 'get' in oo.flags:
+                good = True
+        # no other condition decides it
+        extra = [1 for d, si, taken in dominating_switches(rk, nb_) if si.get('kind') != 'enum' or (si.get('adt') not in ('core::option::Option', 'core::ops::control_flow::ControlFlow', 'core::result::Result'))]
+        okn = okn and good and not extra
+    ctx.ob('RECORD', 'next_key/none-only-at-end', okn, short_loc(rk.span), 'next_key_seed yields None exactly when no field is left (first() is None): %s' % okn)
     # key = the peeked field's name; None at the end
     fo = [(bb, t) for bb, t in rk.calls() if call_matches(t, ['slice::<impl [T]>::first'])]
     ctx.ob('RECORD', 'next_key/first-of-remaining', len(fo) == 1 and 'record_fields' in origin(rk, fo[0][1]['args'][0]).fields if fo else False,
